@@ -535,7 +535,7 @@ func (c *Ctx) checkNoBucketMutation(rule string) {
 	if nBad == 0 {
 		c.ok(rule, "library packages", token.NoPos, fmt.Sprintf("all %d element stores / copies / appends / sorts over bucket-derived slices target storage allocated in the same function (%d bucket-derived values tracked)", nSinks, len(taint)))
 	}
-	c.floor(rule, nSinks, 4)
+	c.floor(rule, nSinks, 2)
 }
 
 func (c *Ctx) checkBucketCacheGet(rule string) {
